@@ -446,5 +446,10 @@ func vfRunStreamsMap(c vtrace.Case, rec *vtrace.Rec) {
 			rec.Add(line)
 		}
 		settle(-1)
+		// quiescent: every call is blocked or has returned.  Frames that turn up only now belong to nobody in particular
+		// and are reported with the marker
+		sl := vtrace.Op{"ev": "Settled"}
+		takeFrames(sl)
+		rec.Add(sl)
 	}
 }
